@@ -16,23 +16,39 @@ def main():
     d = os.path.join(VERIF, "seeded", sid)
     meta = json.load(open(os.path.join(d, "meta.json")))
     props = sys.argv[2:] or [meta["property"]]
-    st = subprocess.run(["git", "-C", "/repo", "status", "--porcelain", "--untracked-files=no"], capture_output=True, text=True).stdout.strip()
-    if st:
-        print("refusing: /repo has local modifications:\n" + st)
-        return 2
-    subprocess.run(["git", "-C", "/repo", "apply", os.path.join(d, "patch.diff")], check=True)
+    # --worktree: apply the change in a scratch worktree of /repo HEAD and point the checks at it
+    # (VERIF_REPO), so that /repo itself - and any `vp run` using it - is left alone. Default: the
+    # procedure of the brief (apply to /repo's working tree, run, undo).
+    use_wt = "--worktree" in sys.argv
+    props = [p for p in props if p != "--worktree"] or [meta["property"]]
+    env = dict(os.environ)
+    wt = None
+    if use_wt:
+        wt = "/tmp/se_wt_%s_%d" % (sid, os.getpid())
+        subprocess.run(["git", "-C", "/repo", "worktree", "add", "--detach", wt, "HEAD"], check=True, capture_output=True)
+        subprocess.run(["git", "-C", wt, "apply", os.path.join(d, "patch.diff")], check=True)
+        env["VERIF_REPO"] = wt
+    else:
+        st = subprocess.run(["git", "-C", "/repo", "status", "--porcelain", "--untracked-files=no"], capture_output=True, text=True).stdout.strip()
+        if st:
+            print("refusing: /repo has local modifications:\n" + st)
+            return 2
+        subprocess.run(["git", "-C", "/repo", "apply", os.path.join(d, "patch.diff")], check=True)
     results = {}
     try:
         for p in props:
             t0 = time.time()
-            r = subprocess.run([os.path.join(VERIF, "check"), p, "quick"], capture_output=True, text=True, cwd=VERIF)
+            r = subprocess.run([os.path.join(VERIF, "check"), p, "quick"], capture_output=True, text=True, cwd=VERIF, env=env)
             lines = [l for l in r.stdout.split("\n") if l.startswith("VIOLATION") or l.startswith("  signature") or l.startswith("  detail") or l.startswith("BUILD-FAILURE") or l.startswith("HARNESS")]
             results[p] = dict(exit=r.returncode, seconds=round(time.time() - t0, 1), lines=lines[:12])
             print("== %s with seeded change %s: exit %d (%.0fs)" % (p, sid, r.returncode, time.time() - t0))
             for l in lines[:12]:
                 print("   " + l[:300])
     finally:
-        subprocess.run(["git", "-C", "/repo", "checkout", "--", "."], check=True)
+        if use_wt:
+            subprocess.run(["git", "-C", "/repo", "worktree", "remove", "--force", wt], capture_output=True)
+        else:
+            subprocess.run(["git", "-C", "/repo", "checkout", "--", "."], check=True)
         # replays written while the change was applied describe the mutant, not the tree: move them next to it
         rep = os.path.join(VERIF, "replays")
         for f in os.listdir(rep):
